@@ -67,6 +67,22 @@ class World:
         asyncio.set_event_loop(None)
 
 
+def payload(r, n):
+    """payload bytes: random, all zero, all 0xFF, or random with runs of zero bytes (a continuation fragment may
+    start with anything - also with bytes that look like "no command header")"""
+    k = r.randrange(5)
+    if k == 0:
+        return bytes(n)
+    if k == 1:
+        return b"\xff" * n
+    b = bytearray(r.getrandbits(8) for _ in range(n))
+    if k >= 3:
+        for _ in range(r.randrange(1, 6)):
+            a = r.randrange(0, max(n - 8, 1))
+            b[a:a + 8] = bytes(min(8, n - a))
+    return bytes(b)
+
+
 def big_commands(r):
     """commands whose HL body needs 2..4 fragments, of classes the host receives"""
     from zigpy_zboss import commands as c
@@ -77,13 +93,13 @@ def big_commands(r):
     if k == 0:
         base = gen.gen_cmd(c.APS.DataIndication.Ind, r)
         kw = {p.name: getattr(base, p.name) for p in type(base).schema}
-        kw["Payload"] = t.Payload(bytes(r.getrandbits(8) for _ in range(n)))
+        kw["Payload"] = t.Payload(payload(r, n))
         kw["PayloadLength"] = min(n, 65535)
         return type(base)(**kw)
     if k == 1:
         return c.NcpConfig.ReadNVRAM.Rsp(TSN=r.getrandbits(8), StatusCat=t.StatusCategory(0), StatusCode=t.StatusCodeGeneric(0),
                                         NVRAMVersion=1, DatasetId=t.DatasetId(1), DatasetVersion=2,
-                                        Dataset=t.NVRAMDataset(bytes(r.getrandbits(8) for _ in range(n))))
+                                        Dataset=t.NVRAMDataset(payload(r, n)))
     if k == 2:
         return gen.big_request(r, n)          # a request class: what the host's own transmitter emits
     base = gen.gen_cmd(c.ZDO.MgmtLqi.Rsp, r) if hasattr(c.ZDO, "MgmtLqi") else None
@@ -94,10 +110,16 @@ def split_frames(r, body, k=None):
     """link frames for `body` split into k pieces, first >= 4 bytes, each <= 247"""
     n = len(body)
     k = k or r.randrange(2, 6)
+    tiny = r.random() < 0.3
     for _ in range(100):
         cuts = sorted(r.sample(range(4, n), k - 1)) if n - 4 >= k - 1 else None
         if cuts is None:
             break
+        if tiny and k >= 3:
+            # a continuation fragment of 1..3 bytes (an NCP may cut wherever it likes)
+            j = r.randrange(0, len(cuts) - 1)
+            cuts[j + 1] = min(cuts[j] + r.randrange(1, 4), n - 1)
+            cuts = sorted(set(cuts))
         pieces = [body[a:b] for a, b in zip([0] + cuts, cuts + [n])]
         if all(0 < len(p) <= 247 for p in pieces):
             frames = []
@@ -128,7 +150,9 @@ def run(ctx):
     own = []
     for blen in [248, 249, 250, 251, 300, 493, 494, 495, 497, 741, 742, 988]:
         own.append(gen.big_request(r, blen - 12))        # WriteNVRAM: 12 bytes of header + fixed parameters
-    for it in range(len(own) + ctx.scale(60, 1200)):
+    for blen in [251, 495, 600, 742]:
+        own.append(gen.big_request(r, blen - 12, fill=0))   # ... and zero-filled: every continuation fragment starts with zeros
+    for it in range(len(own) + ctx.scale(160, 1500)):
         cmd = own[it] if it < len(own) else big_commands(r)
         body = cmd.to_frame().hl_packet.serialize()[2:]
         scenario = "own-fragmenter" if it < len(own) else \
